@@ -191,6 +191,10 @@ func Ite(c bool, a, b int) int {
 func And(a, b bool) bool { return a && b }
 func Or(a, b bool) bool  { return a || b }
 func Symbolic() bool     { return false }
+
+// UnderGosym reports whether the harness runs inside the symbolic executor
+// (true there, in both symbolic and concrete-vector mode; false natively).
+func UnderGosym() bool { return false }
 func SegMode(on bool)    {}
 
 // Try runs f and reports whether it panicked (an Assume failure passes through).
